@@ -251,19 +251,19 @@ Qed.
 Lemma tseq_length : length s = n.
 Proof. unfold tseq_of_run. rewrite map_length, seq_length. reflexivity. Qed.
 
+(** a plain factor passes its check iff it keeps its level for its sustain count *)
 Lemma f0_factor_ok f fd : In f (fl_act fb) -> is_derived fb f = false -> nth_error (s_factors S0) f = Some fd ->
-  factor_ok S0 s f fd = true.
+  factor_ok S0 s f fd = held fb s f.
 Proof.
   intros Hact Hnd Hfd. destruct (f0_sem_factor fb HF f fd Hact Hfd) as (Hf & Hnl & Hsu & Hder). specialize (Hder Hnd).
-  unfold factor_ok. rewrite tseq_row by exact Hf. rewrite decoded_row_length by assumption.
+  unfold factor_ok, held. rewrite tseq_row by exact Hf. rewrite decoded_row_length by assumption.
   rewrite (f0_sem_trials fb HF), Nat.eqb_refl. cbn [andb].
-  apply forallb_forall. intros t Ht. apply in_seq in Ht.
-  unfold get_cell, cell. rewrite tseq_row by exact Hf.
+  apply forallb_ext_in'. intros t Ht. apply in_seq in Ht.
   pose proof (decoded_row_cells k f Hk Hact) as Hcells.
   pose proof (Forall_nth' _ _ t None Hcells ltac:(rewrite decoded_row_length by assumption; lia)) as [l [El [Hl _]]].
-  rewrite El. unfold applies. rewrite Hder, Hnl, Hsu. rewrite Nat.div_1_r, Nat.mul_1_r, El.
-  cbn [cell_eqb andb]. rewrite Nat.eqb_refl.
-  replace (l <? nlevels fb f) with true by (symmetry; apply Nat.ltb_lt; exact Hl). reflexivity.
+  assert (Ec : get_cell s f t = Some l) by (unfold get_cell; rewrite tseq_row by exact Hf; exact El).
+  rewrite Ec. unfold applies. rewrite Hder, Hnl, Hsu.
+  replace (l <? nlevels fb f) with true by (symmetry; apply Nat.ltb_lt; exact Hl). cbn [andb]. rewrite andb_true_r. reflexivity.
 Qed.
 
 (** * The trials of the candidate, one dictionary each *)
@@ -339,6 +339,7 @@ Lemma f0_crossed_derived_ok f fd : In f (fl_act fb) -> is_derived fb f = true ->
 Proof.
   intros Hact Hdf Hfd. destruct (f0_sem_factor fb HF f fd Hact Hfd) as (Hf & Hnl & Hsu & _).
   destruct (f0_sem_crossed_derived fb HF f fd Hact Hdf Hfd) as (Hfc & d & w & Hd & Hw & Hder & Hdeps).
+  rewrite (f0_sustain_main fb HF f Hfc) in Hsu.
   set (dw := {| w_deps := win_deps w; w_width := 1; w_stride := 1; w_start := 0; w_table := map lv_accepts (ff_levels d) |}) in *.
   unfold factor_ok. rewrite tseq_row by exact Hf. rewrite decoded_row_length by assumption.
   rewrite (f0_sem_trials fb HF), Nat.eqb_refl. cbn [andb].
@@ -583,42 +584,40 @@ Proof.
 Qed.
 
 (** factors and the sampled crossing are in order: validity of the whole sequence (implied factors added)
-    reduces to the other crossings and the constraints on the candidate *)
+    reduces to the sustained factors, the other crossings and the constraints on the candidate *)
 Theorem f0_valid_base : valid_b S0 fs =
-  forallb (crossing_ok S0 s) (f0_ocrossings fb) && forallb (constraint_ok S0 s) (s_constraints S0).
+  sustain_held fb s && forallb (crossing_ok S0 s) (f0_ocrossings fb) && forallb (constraint_ok S0 s) (s_constraints S0).
 Proof.
-  unfold valid_b. rewrite fill_length, (f0_sem_factors_length fb HF), Nat.eqb_refl.
-  replace (forallb (fun p => factor_ok S0 fs (fst p) (snd p)) (index_list (s_factors S0))) with true.
-  2:{ symmetry. apply forallb_forall. intros [f fd] Hin. cbn [fst snd].
-      unfold index_list in Hin. apply In_nth_error in Hin. destruct Hin as [i Hi].
-      apply nth_error_combine in Hi. destruct Hi as [H1 H2].
-      assert (f = i).
-      { pose proof H1 as H1'. apply nth_error_nth with (d := 0) in H1'.
-        assert (i < length (seq 0 (length (s_factors S0)))) by (apply nth_error_Some; congruence).
-        rewrite seq_length in H. rewrite seq_nth in H1' by exact H. lia. }
-      subst i. destruct (in_dec Nat.eq_dec f (fl_act fb)) as [Ha | Hna].
-      - destruct (is_derived fb f) eqn:Edf.
-        + rewrite (factor_ok_ext S0 fs s f fd (fill_act_row f Ha)); [apply f0_crossed_derived_ok; assumption|].
-          intros w0 x Hw0 Hx. apply fill_act_row.
-          destruct (f0_sem_crossed_derived fb HF f fd Ha Edf H2) as (_ & d & w & _ & _ & Hder & Hdeps).
-          rewrite Hder in Hw0. inversion Hw0; subst w0. cbn [w_deps] in Hx. apply (Hdeps x Hx).
-        + destruct (f0_sem_factor fb HF f fd Ha H2) as (_ & _ & _ & Hder). specialize (Hder Edf).
-          rewrite (factor_ok_ext_basic S0 fs s f fd Hder (fill_act_row f Ha)). apply f0_factor_ok; assumption.
-      - apply f0_implied_ok; assumption. }
-  cbn [andb]. rewrite (f0_sem_crossings fb HF). cbn [forallb].
+  unfold valid_b. rewrite fill_length, (f0_sem_factors_length fb HF), Nat.eqb_refl. cbn [andb].
+  assert (Hfac : forallb (fun p => factor_ok S0 fs (fst p) (snd p)) (index_list (s_factors S0)) = sustain_held fb s).
+  { unfold sustain_held, index_list. rewrite (f0_sem_factors_length fb HF).
+    rewrite <- (forallb_combine_fst (fun f => if 1 <? sustain_of fb f then held fb s f else true) (seq 0 n) (s_factors S0))
+      by (rewrite seq_length; apply (f0_sem_factors_length fb HF)).
+    apply forallb_ext_in'. intros [f fd] Hin. cbn [fst snd].
+    apply In_nth_error in Hin. destruct Hin as [i Hi].
+    apply nth_error_combine in Hi. destruct Hi as [H1 H2].
+    assert (f = i).
+    { pose proof H1 as H1'. apply nth_error_nth with (d := 0) in H1'.
+      assert (i < length (seq 0 n)) by (apply nth_error_Some; congruence).
+      rewrite seq_length in H. rewrite seq_nth in H1' by exact H. lia. }
+    subst i. destruct (in_dec Nat.eq_dec f (fl_act fb)) as [Ha | Hna].
+    - destruct (is_derived fb f) eqn:Edf.
+      + rewrite (f0_sustain_derived fb HF f Ha Edf). cbn [Nat.ltb Nat.leb].
+        rewrite (factor_ok_ext S0 fs s f fd (fill_act_row f Ha)); [apply f0_crossed_derived_ok; assumption|].
+        intros w0 x Hw0 Hx. apply fill_act_row.
+        destruct (f0_sem_crossed_derived fb HF f fd Ha Edf H2) as (_ & d & w & _ & _ & Hder & Hdeps).
+        rewrite Hder in Hw0. inversion Hw0; subst w0. cbn [w_deps] in Hx. apply (Hdeps x Hx).
+      + destruct (f0_sem_factor fb HF f fd Ha H2) as (_ & _ & _ & Hder). specialize (Hder Edf).
+        rewrite (factor_ok_ext_basic S0 fs s f fd Hder (fill_act_row f Ha)). rewrite (f0_factor_ok f fd Ha Edf H2).
+        destruct (1 <? sustain_of fb f) eqn:E1; [reflexivity|]. apply held_one.
+        apply Nat.ltb_ge in E1. pose proof (f0_sustain_pos fb HF f). lia.
+    - rewrite (f0_sustain_not_act fb HF f Hna). cbn [Nat.ltb Nat.leb]. apply f0_implied_ok; assumption. }
+  rewrite Hfac. rewrite (f0_crossings_split fb HF).
   rewrite (crossing_ok_ext S0 fs s (f0_crossing fb)) by (intros f t Hf; apply fill_act_cell; apply (f0_cact_main fb HF); exact Hf).
-  rewrite f0_crossing_ok. cbn [andb]. f_equal.
+  rewrite f0_crossing_ok. cbn [andb]. f_equal. f_equal.
   - apply forallb_ext_in'. intros cr Hcr. apply crossing_ok_ext. intros f t Hf. apply fill_act_cell.
-    (* the factors of a coded crossing are those of a crossing of the block *)
-    unfold f0_ocrossings in Hcr.
-    assert (G : forall cs i, (forall ci, In ci cs -> In ci (fl_crossings fb)) -> In cr (CodeSem.code_crossings fb i cs) ->
-                exists ci, In ci (fl_crossings fb) /\ c_factors cr = ci).
-    { induction cs as [|ci t0 IH]; intros i Hall Hin; [destruct Hin|]. cbn [CodeSem.code_crossings] in Hin.
-      destruct Hin as [E | Hin].
-      - exists ci. split; [apply Hall; left; reflexivity|]. subst cr. reflexivity.
-      - apply (IH (S i)); [intros x Hx; apply Hall; right; exact Hx | exact Hin]. }
-    destruct (G _ 1 ltac:(intros ci Hci; rewrite (f0_crossings fb (f0_unpack fb HF)); right; exact Hci) Hcr) as (ci & Hci & E).
-    rewrite E in Hf. apply (f0_cact fb (f0_unpack fb HF) ci f Hci Hf).
+    destruct (f0_ocrossings_In fb HF cr Hcr) as (i & ci & Hci & _ & E). subst cr. cbn [CodeSem.code_crossing c_factors] in Hf.
+    apply (f0_cact fb (f0_unpack fb HF) ci f); [eapply nth_error_In; exact Hci | exact Hf].
   - apply forallb_ext_in'. intros dc Hdc. destruct (coded_constraint_act dc Hdc) as [Hnl Ha].
     apply (constraint_ok_ext S0 fs s dc Hnl). apply fill_act_row. exact Ha.
 Qed.
